@@ -246,6 +246,8 @@ TypeLookup(e, key) ==
   IF r.r # "exc" THEN r
   ELSE IF key.ty \in {"int", "bool", "str", "numstr"} THEN Exc("RangeError") ELSE Exc("WrongTypeError")
 TypeExport(e, key) == LET r == TypeLookup(e, key) IN IF r.r = "mem" THEN IntR(r.v) ELSE r
+(* (the copy is a construction from an Enum parent: under "ReservedName" it can fail) *)
+ViaCopy(S, e, res) == LET c == Build(S, "", TRUE, "enum", e, <<>>, <<>>) IN IF c.r = "exc" THEN c ELSE res
 
 (* ---------------------------------------------------------------------------------- immutability *)
 (* "You can neither modify members nor Enums. You only can create an extended Enum."  The one exception the     *)
